@@ -4,14 +4,14 @@ use crate::support::*;
 use educe::Educe;
 use core::cmp::Ordering;
 #[derive(Educe)]
-#[repr(isize)]
-#[educe(Eq, PartialEq, Ord)]
-pub enum T { Unit = 2, None(#[educe(Ord(rank = 0x1))] bool, #[educe(Ord(rank("0")))] ()) = 200 }
+#[repr(i64)]
+#[educe(PartialEq, Eq, Ord)]
+pub enum T { Zed { #[educe(Ord(rank = "+5"))] f: (), #[educe(Ord(rank = 0x4))] other: () } = 1, None { #[educe(Ord(rank = "-1"))] state: i64, #[educe(Ord(rank = "1"))] builder: char }, C(#[educe(Ord(rank = "+6"))] ::core::num::NonZeroU8) = 127, V1(bool, u8) }
 impl PartialOrd for T { fn partial_cmp(&self, o: &Self) -> Option<Ordering> { Some(::core::cmp::Ord::cmp(self, o)) } }
-pub fn values() -> Vec<T> { vec![T::Unit, T::None(false, ()), T::None(true, ())] }
-pub fn show(x: &T) -> String { #[allow(unused_variables)] match x { T::Unit => format!("Unit()"), T::None(p0, p1) => format!("None({},{})", sv(p0), sv(p1)) } }
-pub fn o_disc(x: &T) -> i128 { match x { T::Unit => 2, T::None(_, _) => 200 } }
-pub fn o_cmp(a: &T, b: &T) -> Ordering { match (a, b) { (T::Unit, T::Unit) => {  Ordering::Equal }, (T::None(a0, a1), T::None(b0, b1)) => { let c = ::core::cmp::Ord::cmp(a1, b1); if c != Ordering::Equal { return c; } let c = ::core::cmp::Ord::cmp(a0, b0); if c != Ordering::Equal { return c; } Ordering::Equal }, _ => o_disc(a).cmp(&o_disc(b)) } }
+pub fn values() -> Vec<T> { vec![T::Zed { f: (), other: () }, T::None { state: -5, builder: 'a' }, T::None { state: -5, builder: 'z' }, T::None { state: 0, builder: 'a' }, T::None { state: 0, builder: 'z' }, T::None { state: 9, builder: 'a' }, T::None { state: 9, builder: 'z' }, T::C(::core::num::NonZeroU8::new(1).unwrap()), T::C(::core::num::NonZeroU8::new(200).unwrap()), T::V1(false, 0), T::V1(false, 100), T::V1(false, 200), T::V1(true, 0), T::V1(true, 100), T::V1(true, 200)] }
+pub fn show(x: &T) -> String { #[allow(unused_variables)] match x { T::Zed { f: p0, other: p1 } => format!("Zed({},{})", sv(p0), sv(p1)), T::None { state: p0, builder: p1 } => format!("None({},{})", sv(p0), sv(p1)), T::C(p0) => format!("C({})", sv(p0)), T::V1(p0, p1) => format!("V1({},{})", sv(p0), sv(p1)) } }
+pub fn o_disc(x: &T) -> i128 { match x { T::Zed { f: _, other: _ } => 1, T::None { state: _, builder: _ } => 2, T::C(_) => 127, T::V1(_, _) => 128 } }
+pub fn o_cmp(a: &T, b: &T) -> Ordering { match (a, b) { (T::Zed { f: a0, other: a1 }, T::Zed { f: b0, other: b1 }) => { let c = ::core::cmp::Ord::cmp(a1, b1); if c != Ordering::Equal { return c; } let c = ::core::cmp::Ord::cmp(a0, b0); if c != Ordering::Equal { return c; } Ordering::Equal }, (T::None { state: a0, builder: a1 }, T::None { state: b0, builder: b1 }) => { let c = ::core::cmp::Ord::cmp(a0, b0); if c != Ordering::Equal { return c; } let c = ::core::cmp::Ord::cmp(a1, b1); if c != Ordering::Equal { return c; } Ordering::Equal }, (T::C(a0), T::C(b0)) => { let c = ::core::cmp::Ord::cmp(a0, b0); if c != Ordering::Equal { return c; } Ordering::Equal }, (T::V1(a0, a1), T::V1(b0, b1)) => { let c = ::core::cmp::Ord::cmp(a0, b0); if c != Ordering::Equal { return c; } let c = ::core::cmp::Ord::cmp(a1, b1); if c != Ordering::Equal { return c; } Ordering::Equal }, _ => o_disc(a).cmp(&o_disc(b)) } }
 #[repr(C)] pub struct Wrap { pub pre: u8, pub x: T, pub post: [u8; 9] }
 pub fn wrap(i: usize, n: u8) -> Wrap { Wrap { pre: n, x: values().swap_remove(i), post: [n; 9] } }
 pub fn run(out: &mut Out) { let vs = values(); for (i, a) in vs.iter().enumerate() { for (j, b) in vs.iter().enumerate() { let e = o_cmp(a, b); let g = ::core::cmp::Ord::cmp(a, b); out.check(g == e, "ordlayout_24", "cmp", || format!("cmp({}, {}) = {:?} expected {:?}", show(a), show(b), g, e)); for n in [0u8, 1, 0x7f, 0x80, 0xff] { let wa = wrap(i, n); let wb = wrap(j, !n); let g = ::core::cmp::Ord::cmp(&wa.x, &wb.x); let e = o_cmp(a, b); out.check(g == e, "ordlayout_24", "cmp_neighbours", || format!("cmp({}, {}) with neighbour bytes {} = {:?} expected {:?}", show(a), show(b), n, g, e)); } } } }
